@@ -529,6 +529,8 @@ func registerLibIntrinsics(p *Program) {
 		return ex.call(fr, fr.callPos, newFn, nil)
 	})
 	p.reg("(*sync.Pool).Put", noop)
+	p.reg("internal/stringslite.Clone", func(ex *Exec, fr *Frame, args []Value) Value { return args[0] })
+	p.reg("strings.Clone", func(ex *Exec, fr *Frame, args []Value) Value { return args[0] })
 	p.reg("internal/abi.NoEscape", func(ex *Exec, fr *Frame, args []Value) Value { return args[0] })
 }
 
@@ -898,6 +900,29 @@ func init() {
 			vt := ex.p.namedType("context", "valueCtx")
 			var cell Value = Struct{args[0], args[1], args[2]}
 			return Iface{t: types.NewPointer(vt), v: &cell}
+		})
+	})
+}
+
+func init() {
+	extraIntrinsics = append(extraIntrinsics, func(p *Program) {
+		p.reg("time.runtimeNano", func(ex *Exec, fr *Frame, args []Value) Value { return mkConst(64, 1) })
+		// time.Parse on a 1-byte symbolic token: an instant after 1970 that is
+		// strictly monotone in the byte (model of "well-formed RFC3339 strings are
+		// totally ordered instants"); concrete strings run the real parser.
+		p.reg("time.Parse", func(ex *Exec, fr *Frame, args []Value) Value {
+			if _, conc := args[1].(string); conc {
+				return ex.runReal(fr, "time.Parse", args)
+			}
+			bs := strBytes(args[1])
+			if len(bs) != 1 {
+				ex.unsupported("time.Parse on a symbolic string of %d bytes", len(bs))
+			}
+			utc := ex.p.prog.ImportedPackage("time").Var("UTC")
+			loc := *ex.globalAddr(utc)
+			// seconds from year 1 to 1970-01-01 = 62135596800
+			ext := mkBin(OpAdd, mkConst(64, 62135596800+1000), mkZExt(bs[0], 64))
+			return Tuple{Struct{mkConst(64, 0), ext, loc}, Iface{}}
 		})
 	})
 }
